@@ -81,6 +81,56 @@ Theorem C04_certificate_sound :
 Proof. exact certified_conservation. Qed.
 Print Assumptions C04_certificate_sound.
 
+(* (5) Two-sided coupling.  When the interface flux that enters the face fluxes of the
+   higher-dimensional cells (lamf) differs from the one that enters the source of the
+   lower-dimensional cells (lams) — as with constitutive_laws.AdTpfaFlux (DarcysLawAd /
+   FouriersLawAd), whose diffusive_flux applies the projected interface flux on EXTERNAL
+   Neumann faces only — the residuals sum to the accumulation rate plus what the faces
+   receive minus what the sources hand out (any commutative ring; no column-sum condition). *)
+Theorem C04_deficit :
+  forall (R : Type) (rO rI : R) (radd rmul rsub : R -> R -> R) (ropp : R -> R)
+         (req : R -> R -> Prop),
+    Equivalence req -> ring_eq_ext radd rmul ropp req ->
+    ring_theory rO rI radd rmul rsub ropp req ->
+    forall (nc nf nm : nat) (D : list inc) (Pp Ps : list (wtr R))
+           (acc a lamf lams ext : nat -> R),
+      incidence_wf nc nf D -> coupling_support R nc nf nm D Pp Ps ->
+      (forall f, (f < nf)%nat -> is_boundary D f = true -> req (a f) rO) ->
+      (forall c, (c < nc)%nat -> req (ext c) rO) ->
+      req (total R rO radd nc (residual2 R rO rI radd rmul rsub ropp D Pp Ps acc a lamf lams ext))
+          (rsub (radd (total R rO radd nc acc)
+                      (total R rO radd nm (fun m => rmul (pcolsum R rO radd Pp m) (lamf m))))
+                (total R rO radd nm (fun m => rmul (pcolsum R rO radd Ps m) (lams m)))).
+Proof. exact deficit. Qed.
+Print Assumptions C04_deficit.
+
+(* (6) The full-strength statement is FALSE of the faithful model of the differentiable
+   diffusive laws (interface flux missing from the face fluxes): a certified structure, a
+   closed intrinsic flux and a state whose residuals do not sum to the accumulation rate.
+   Replayed on the implementation = known finding "AdTpfaFlux.diffusive_flux: interface
+   flux not applied on internal boundary faces". *)
+Theorem C04_adflux_conservation_refuted :
+  exists (S : structure) (acc a lamf lams : nat -> Q),
+    cert_ok S = true /\
+    (forall f, (f < s_nf S)%nat -> is_boundary (s_div S) f = true -> a f == 0) /\
+    ~ qtotal (s_nc S) (qresidual2 (s_div S) (s_pp S) (s_ps S) acc a lamf lams (fun _ => 0))
+      == qtotal (s_nc S) acc.
+Proof. exact adflux_refuted. Qed.
+Print Assumptions C04_adflux_conservation_refuted.
+
+(* (7) ... and it holds under the guard that excludes exactly the failing region: the two
+   interface fluxes have the same total (in particular when the diffusive interface flux
+   vanishes, or with the standard laws where lamf = lams). *)
+Theorem C04_adflux_conservation_partial :
+  forall (S : structure) (acc a lamf lams : nat -> Q),
+    cert_ok S = true ->
+    (forall f, (f < s_nf S)%nat -> is_boundary (s_div S) f = true -> a f == 0) ->
+    qtotal (s_nm S) lamf == qtotal (s_nm S) lams ->
+    qtotal (s_nc S) (qresidual2 (s_div S) (s_pp S) (s_ps S) acc a lamf lams (fun _ => 0))
+    == qtotal (s_nc S) acc.
+Proof. exact certified_partial. Qed.
+Print Assumptions C04_adflux_conservation_partial.
+
 (* Non-vacuity: three 1-D cells (0,1 | 2) cut by a 0-d fracture cell 3 between cells 1 and
    2; faces 0..4 (face 1 interior, faces 2 and 3 the two sides of the fracture), two mortar
    cells.  The certificate passes, the hypotheses hold, and at a concrete state the
